@@ -996,11 +996,23 @@ def run_mir(group, ctx):
             n1, b1 = M.function_body(mir, r"::skip_entry")
             n2, b2 = M.function_body(mir, r"::generate_work")
             p1 = M.paths_of(M.parse_blocks(b1), {})
-            p2 = M.paths_of(M.parse_blocks(b2), {"_5": ("param", "readdir")}, handed_on_call=r"walk::Worker::<'_>::send$")
+            p2 = M.paths_of(M.parse_blocks(b2), {"_5": ("param", "readdir")}, handed_on_call=r"walk::Worker::<'_>::send$",
+                            versioned={"ignored": (r"DirEntryRaw::from_path$", "ignored_resolved", "ignored_link")})
         except M.Inconclusive as e:
             return [mk("c06_skip_decision", K.INCONCLUSIVE, "encoding could not be regenerated: %s" % e)]
         atoms = M.atoms_of(p1, p2)
+        # `ignored` (serial walker, documented conjunction) is the ignore verdict on the entry the
+        # walker works with: walkdir hands the serial walker the RESOLVED entry when links are followed;
+        # the parallel walker re-stats a followed link itself (DirEntryRaw::from_path) and must ask the
+        # ignore rules AFTERWARDS.  Ignore rules see the path and is_dir only, so for a non-directory
+        # both verdicts coincide.
+        for a in ("ignored_resolved", "ignored_link", "follow_links", "is_symlink"):
+            if a not in atoms:
+                atoms.append(a)
+        atoms = sorted(a for a in atoms if a != "ignored")
         decl = "".join("(declare-const %s Bool)\n" % a for a in atoms)
+        decl += "(define-fun ignored () Bool (ite (and follow_links is_symlink) ignored_resolved ignored_link))\n"
+        decl += "(assert (=> (not (and is_symlink is_dir)) (= ignored_resolved ignored_link)))\n"
         # scope: entries below the root, no I/O errors
         scope = "".join("(assert (not %s))\n" % a for a in atoms if a.endswith("_err") or a == "depth_is_0")
         s_on, p_on = M.formula(p1, "on"), M.formula(p2, "on")
@@ -1014,13 +1026,13 @@ def run_mir(group, ctx):
             ("c06_parallel_is_documented", "(assert (xor %s %s))" % (p_on, doc),
              "parallel walker hands an entry on iff the documented conjunction holds"),
         ]
-        for need in ("ignored", "stdout_known", "is_stdout", "size_limit_set", "is_dir", "over_size", "filter_set", "filter_accepts"):
+        for need in ("ignored_link", "ignored_resolved", "stdout_known", "is_stdout", "size_limit_set", "is_dir", "over_size", "filter_set", "filter_accepts"):
             if need not in atoms:
                 return [mk("c06_skip_decision", K.INCONCLUSIVE, "expected decision atom `%s` not found in the MIR skeleton" % need)]
         exe = None
         for qname, body, what in queries:
             # prefer a witness the native replay can stage (no stdout handle, no symlink following)
-            pref = "(assert (not stdout_known))\n(assert (not follow_links))\n"
+            pref = "(assert (not stdout_known))\n"
             text = "(set-logic ALL)\n" + decl + scope + pref + body + "\n(check-sat)\n(get-model)\n"
             tq = time.time()
             ans, out = z3_cli(text)
@@ -1037,16 +1049,20 @@ def run_mir(group, ctx):
                 continue
             model = dict(re_findall_model(out))
             asg = {a: model.get(a, "false") == "true" for a in atoms}
+            asg["ignored"] = asg["ignored_resolved"] if (asg["follow_links"] and asg["is_symlink"]) else asg["ignored_link"]
             # replay natively on a real tree through both walkers
             if exe is None:
                 exe, err = build_rgsmt(sc)
             rep = None
             detail = "witness %s" % json.dumps({k: v for k, v in asg.items() if not k.endswith("_err")}, sort_keys=True)
-            if exe and not asg.get("stdout_known") and not asg.get("follow_links"):
+            if exe and not asg.get("stdout_known"):
                 size = "none" if not asg["size_limit_set"] else ("over" if asg["over_size"] else "under")
                 flt = "none" if not asg["filter_set"] else ("accept" if asg["filter_accepts"] else "reject")
                 pr = subprocess.run([exe, "walkreplay", "--is-dir", "1" if asg["is_dir"] else "0", "--size-limit", size,
-                                     "--filter", flt, "--ignored", "1" if asg["ignored"] else "0"],
+                                     "--filter", flt, "--ignored", "1" if asg["ignored"] else "0",
+                                     "--follow", "1" if asg["follow_links"] else "0", "--symlink", "1" if asg["is_symlink"] else "0",
+                                     "--ignored-link", "1" if asg["ignored_link"] else "0",
+                                     "--ignored-resolved", "1" if asg["ignored_resolved"] else "0"],
                                     stdout=subprocess.PIPE, stderr=subprocess.STDOUT, text=True)
                 m = re_search_replay(pr.stdout)
                 if m:
